@@ -7,6 +7,8 @@ event of spec/mutable/TraceMutableOps.tla; nothing is judged here.
                                   around segment boundaries and power-of-two segment counts
   --mode cases  --in cases.json   replay of Spec-generated single-update cases (GenMutableOps.tla)
 """
+import os as _os
+_os.environ.setdefault("VERIF_ASYNC_CPU", "1")   # CPU-bound steps (decode, decrypt, hashing) finish one reactor turn later, as in production
 from vreactor import vr, settle
 import argparse, json, os, random, shutil, sys, tempfile
 
